@@ -1,1 +1,1015 @@
-//! (to be filled)
+//! Engine E1 `vsched`: a stateless, deterministic scheduler that runs the real
+//! library one synchronisation operation at a time (through the `verif` hooks
+//! of the prometheus crate) and enumerates thread interleavings of a small
+//! driver: unbounded with sleep-set reduction (Mode U) or iteratively
+//! preemption-bounded without reduction (Mode B).
+//!
+//! Threads are real OS threads from a per-explorer pool; exactly one of them
+//! runs between two scheduling points. A scheduling point is every hooked
+//! atomic / lock operation plus the CallBegin / CallEnd pseudo-operations the
+//! recorder puts around every API call (so that real-time precedence between
+//! calls is something the scheduler places).
+
+use prometheus::verif::{set_thread_hook, Directive, Op, OpKind, Outcome, SyncHook};
+use serde_json::{json, Value};
+use std::collections::HashMap;
+use std::sync::atomic::Ordering as MemOrd;
+use std::sync::{mpsc, Arc, Condvar, Mutex};
+
+// ------------------------------------------------------------------ values
+
+/// Argument / return values recorded in call histories.
+#[derive(Clone, Debug, PartialEq)]
+pub enum Val {
+    Unit,
+    F(f64),
+    I(i64),
+    B(bool),
+    S(String),
+    /// histogram snapshot: (count, sum, cumulative bucket counts)
+    Snap(u64, f64, Vec<u64>),
+    /// collected children: (key, value) pairs
+    Kids(Vec<(String, f64)>),
+}
+
+impl Val {
+    pub fn f(&self) -> f64 {
+        match self {
+            Val::F(v) => *v,
+            Val::I(v) => *v as f64,
+            _ => f64::NAN,
+        }
+    }
+}
+
+#[derive(Clone, Debug)]
+pub struct Call {
+    pub thread: usize,
+    pub name: String,
+    pub arg: Val,
+    pub ret: Val,
+    /// position (global step index) of CallBegin / CallEnd
+    pub inv: usize,
+    pub res: usize,
+}
+
+impl Call {
+    pub fn precedes(&self, other: &Call) -> bool {
+        self.res < other.inv
+    }
+    pub fn show(&self) -> String {
+        format!("T{} {}({:?}) -> {:?} [{}..{}]", self.thread, self.name, self.arg, self.ret, self.inv, self.res)
+    }
+}
+
+// --------------------------------------------------------------- operations
+
+#[derive(Clone, Copy, Debug, PartialEq)]
+pub enum PKind {
+    Start,
+    CallBegin,
+    CallEnd,
+    Sync(OpKind),
+}
+
+#[derive(Clone, Copy, Debug)]
+pub struct Pending {
+    pub kind: PKind,
+    pub addr: usize,
+    pub expected: u64,
+    pub operand: u64,
+    pub ord: MemOrd,
+    pub ord_fail: MemOrd,
+    pub peek: fn(usize) -> u64,
+}
+
+fn no_peek(_: usize) -> u64 {
+    0
+}
+
+impl Pending {
+    fn pseudo(kind: PKind) -> Pending {
+        Pending { kind, addr: 0, expected: 0, operand: 0, ord: MemOrd::Relaxed, ord_fail: MemOrd::Relaxed, peek: no_peek }
+    }
+    fn from_op(op: &Op) -> Pending {
+        Pending { kind: PKind::Sync(op.kind), addr: op.addr, expected: op.expected, operand: op.operand, ord: op.ord, ord_fail: op.ord_fail, peek: op.peek }
+    }
+    fn is_lock_op(&self) -> bool {
+        matches!(
+            self.kind,
+            PKind::Sync(
+                OpKind::MutexLock
+                    | OpKind::MutexTryLock
+                    | OpKind::MutexUnlock
+                    | OpKind::RwRead
+                    | OpKind::RwWrite
+                    | OpKind::RwTryRead
+                    | OpKind::RwTryWrite
+                    | OpKind::RwUnlockRead
+                    | OpKind::RwUnlockWrite
+            )
+        )
+    }
+    fn is_read_only(&self) -> bool {
+        matches!(self.kind, PKind::Sync(OpKind::Load))
+    }
+}
+
+/// Independence of two pending operations of different threads.
+pub fn independent(a: &Pending, b: &Pending) -> bool {
+    use PKind::*;
+    match (a.kind, b.kind) {
+        // real-time precedence: a return and an invocation of different threads are ordered
+        (CallEnd, CallBegin) | (CallBegin, CallEnd) => false,
+        (Start | CallBegin | CallEnd, _) | (_, Start | CallBegin | CallEnd) => true,
+        (Sync(OpKind::Fence), _) | (_, Sync(OpKind::Fence)) => false,
+        (Sync(_), Sync(_)) => {
+            if a.addr != b.addr {
+                return true;
+            }
+            if a.is_lock_op() || b.is_lock_op() {
+                // two read acquisitions / releases of a rwlock commute, everything else does not
+                let rd = |p: &Pending| matches!(p.kind, Sync(OpKind::RwRead | OpKind::RwUnlockRead));
+                return rd(a) && rd(b);
+            }
+            a.is_read_only() && b.is_read_only()
+        }
+    }
+}
+
+#[derive(Clone, Debug)]
+pub struct StepRec {
+    pub thread: usize,
+    pub kind: PKind,
+    pub addr: usize,
+    pub ord: MemOrd,
+    pub ord_fail: MemOrd,
+    pub operand: u64,
+    pub expected: u64,
+    pub outcome: Option<Outcome>,
+    pub call: Option<String>,
+}
+
+#[derive(Clone, Debug)]
+pub struct Node {
+    /// enabled threads at this node (ascending ids)
+    pub enabled: Vec<usize>,
+    /// pending operation of every thread that has one (index = thread id)
+    pub pending: Vec<Option<Pending>>,
+    pub chosen: usize,
+    /// thread that ran the previous step (None at the first node)
+    pub prev: Option<usize>,
+    /// sleep set (thread ids) in force at this node
+    pub sleep: Vec<usize>,
+}
+
+#[derive(Clone, Debug, PartialEq)]
+pub enum Abort {
+    Deadlock(String),
+    SleepBlocked,
+    Horizon,
+    ReplayDivergence(String),
+    BodyPanic(String),
+}
+
+#[derive(Default)]
+struct LockState {
+    writer: Option<usize>,
+    readers: usize,
+}
+
+enum TStatus {
+    NotStarted,
+    Parked(Pending),
+    Running,
+    Finished,
+}
+
+struct ExecState {
+    status: Vec<TStatus>,
+    current: Option<usize>,
+    prev: Option<usize>,
+    nodes: Vec<Node>,
+    steps: Vec<StepRec>,
+    prefix: Vec<usize>,
+    sleep: Vec<usize>,
+    /// sleep set to install when the end of the prefix is reached
+    sleep_after_prefix: Vec<usize>,
+    use_sleep: bool,
+    abort: Option<Abort>,
+    locks: HashMap<usize, LockState>,
+    last_failed_cas: Vec<Option<(usize, u64)>>,
+    calls: Vec<Call>,
+    open_call: Vec<Option<usize>>,
+    cur_call_name: Vec<Option<String>>,
+    finished: usize,
+    max_steps: usize,
+    /// threads inside an API call (between CallBegin and CallEnd), for the waiting oracle
+    pub in_call: Vec<Option<String>>,
+    /// (spinning thread, its call, what every other thread was doing) observed when a thread was disabled by the spin rule
+    pub spin_obs: Vec<(usize, String, Vec<Option<String>>)>,
+}
+
+pub struct Exec {
+    st: Mutex<ExecState>,
+    cvs: Vec<Condvar>,
+    done: Condvar,
+}
+
+struct Aborted;
+
+impl Exec {
+    fn new(n: usize, prefix: Vec<usize>, sleep_after_prefix: Vec<usize>, use_sleep: bool, max_steps: usize) -> Arc<Exec> {
+        Arc::new(Exec {
+            st: Mutex::new(ExecState {
+                status: (0..n).map(|_| TStatus::NotStarted).collect(),
+                current: None,
+                prev: None,
+                nodes: vec![],
+                steps: vec![],
+                prefix,
+                sleep: vec![],
+                sleep_after_prefix,
+                use_sleep,
+                abort: None,
+                locks: HashMap::new(),
+                last_failed_cas: vec![None; n],
+                calls: vec![],
+                open_call: vec![None; n],
+                cur_call_name: vec![None; n],
+                finished: 0,
+                max_steps,
+                in_call: vec![None; n],
+                spin_obs: vec![],
+            }),
+            cvs: (0..n).map(|_| Condvar::new()).collect(),
+            done: Condvar::new(),
+        })
+    }
+
+    fn enabled(st: &ExecState, t: usize, p: &Pending) -> bool {
+        match p.kind {
+            PKind::Sync(OpKind::MutexLock) => st.locks.get(&p.addr).map(|l| l.writer.is_none()).unwrap_or(true),
+            PKind::Sync(OpKind::RwRead) => st.locks.get(&p.addr).map(|l| l.writer.is_none()).unwrap_or(true),
+            PKind::Sync(OpKind::RwWrite) => st.locks.get(&p.addr).map(|l| l.writer.is_none() && l.readers == 0).unwrap_or(true),
+            PKind::Sync(OpKind::CmpXchg { .. }) => match st.last_failed_cas[t] {
+                // a pure spin iteration: blocked until the cell holds the expected value
+                Some((a, e)) if a == p.addr && e == p.expected => (p.peek)(p.addr) == p.expected,
+                _ => true,
+            },
+            _ => true,
+        }
+    }
+
+    /// Make a scheduling decision. Called with the lock held by the thread that
+    /// just parked or finished; all other threads are parked or finished.
+    fn decide(&self, st: &mut ExecState) {
+        if st.abort.is_some() {
+            self.wake_all(st);
+            return;
+        }
+        let n = st.status.len();
+        // all threads must have arrived at their first scheduling point
+        if st.status.iter().any(|s| matches!(s, TStatus::NotStarted | TStatus::Running)) {
+            return;
+        }
+        let mut pend: Vec<Option<Pending>> = vec![None; n];
+        let mut enabled = vec![];
+        for t in 0..n {
+            if let TStatus::Parked(p) = &st.status[t] {
+                pend[t] = Some(*p);
+                if Self::enabled(st, t, p) {
+                    enabled.push(t);
+                } else if matches!(p.kind, PKind::Sync(OpKind::CmpXchg { .. })) {
+                    // waiting oracle: remember what the others were doing while t spins
+                    let obs = (t, st.in_call[t].clone().unwrap_or_default(), st.in_call.clone());
+                    if st.spin_obs.len() < 64 {
+                        st.spin_obs.push(obs);
+                    }
+                }
+            }
+        }
+        if enabled.is_empty() {
+            if st.finished == n {
+                self.done.notify_all();
+                return;
+            }
+            let blocked: Vec<String> = (0..n)
+                .filter_map(|t| pend[t].map(|p| format!("T{} blocked at {:?} addr {:#x} in {:?}", t, p.kind, p.addr, st.in_call[t])))
+                .collect();
+            st.abort = Some(Abort::Deadlock(blocked.join("; ")));
+            self.wake_all(st);
+            return;
+        }
+        if st.steps.len() >= st.max_steps {
+            st.abort = Some(Abort::Horizon);
+            self.wake_all(st);
+            return;
+        }
+        let pos = st.nodes.len();
+        if pos == st.prefix.len() && st.use_sleep {
+            st.sleep = std::mem::take(&mut st.sleep_after_prefix);
+        }
+        let chosen = if pos < st.prefix.len() {
+            let c = st.prefix[pos];
+            if !enabled.contains(&c) {
+                st.abort = Some(Abort::ReplayDivergence(format!("node {}: thread {} not enabled (enabled {:?})", pos, c, enabled)));
+                self.wake_all(st);
+                return;
+            }
+            c
+        } else {
+            let cand: Vec<usize> = enabled.iter().cloned().filter(|t| !st.sleep.contains(t)).collect();
+            if cand.is_empty() {
+                st.abort = Some(Abort::SleepBlocked);
+                self.wake_all(st);
+                return;
+            }
+            match st.prev {
+                Some(p) if cand.contains(&p) => p,
+                _ => cand[0],
+            }
+        };
+        st.nodes.push(Node { enabled: enabled.clone(), pending: pend.clone(), chosen, prev: st.prev, sleep: st.sleep.clone() });
+        // sleep-set propagation along the executed transition
+        if st.use_sleep && pos >= st.prefix.len() {
+            let cp = pend[chosen].unwrap();
+            st.sleep.retain(|u| pend[*u].map(|pu| independent(&pu, &cp)).unwrap_or(false));
+        }
+        st.current = Some(chosen);
+        st.prev = Some(chosen);
+        self.cvs[chosen].notify_one();
+    }
+
+    fn wake_all(&self, _st: &mut ExecState) {
+        for cv in &self.cvs {
+            cv.notify_all();
+        }
+        self.done.notify_all();
+    }
+
+    /// Park the calling thread at a scheduling point until it is chosen.
+    fn sched_point(&self, me: usize, p: Pending) {
+        if std::thread::panicking() {
+            return;
+        }
+        let mut st = self.st.lock().unwrap();
+        if st.abort.is_some() {
+            drop(st);
+            std::panic::resume_unwind(Box::new(Aborted));
+        }
+        st.status[me] = TStatus::Parked(p);
+        st.current = None;
+        self.decide(&mut st);
+        loop {
+            if st.abort.is_some() {
+                drop(st);
+                std::panic::resume_unwind(Box::new(Aborted));
+            }
+            if st.current == Some(me) {
+                break;
+            }
+            st = self.cvs[me].wait(st).unwrap();
+        }
+        st.status[me] = TStatus::Running;
+        let call = st.cur_call_name[me].clone();
+        st.steps.push(StepRec { thread: me, kind: p.kind, addr: p.addr, ord: p.ord, ord_fail: p.ord_fail, operand: p.operand, expected: p.expected, outcome: None, call });
+    }
+
+    fn finish_thread(&self, me: usize, panic_msg: Option<String>) {
+        let mut st = self.st.lock().unwrap();
+        st.status[me] = TStatus::Finished;
+        st.finished += 1;
+        st.in_call[me] = None;
+        if let Some(m) = panic_msg {
+            if st.abort.is_none() {
+                st.abort = Some(Abort::BodyPanic(format!("T{}: {}", me, m)));
+            }
+        }
+        st.current = None;
+        if st.abort.is_some() {
+            self.wake_all(&mut st);
+            if st.finished == st.status.len() {
+                self.done.notify_all();
+            }
+            return;
+        }
+        self.decide(&mut st);
+        if st.finished == st.status.len() {
+            self.done.notify_all();
+        }
+    }
+}
+
+/// Per-thread hook object installed into the prometheus crate.
+pub struct ThreadHook {
+    exec: Arc<Exec>,
+    me: usize,
+}
+
+impl SyncHook for ThreadHook {
+    fn before(&self, op: &Op) -> Directive {
+        self.exec.sched_point(self.me, Pending::from_op(op));
+        Directive::Proceed
+    }
+
+    fn after(&self, op: &Op, out: &Outcome) {
+        if std::thread::panicking() {
+            return;
+        }
+        let mut st = self.exec.st.lock().unwrap();
+        if st.abort.is_some() {
+            return;
+        }
+        let me = self.me;
+        if let Some(s) = st.steps.last_mut() {
+            if s.thread == me && s.outcome.is_none() {
+                s.outcome = Some(*out);
+            }
+        }
+        st.last_failed_cas[me] = None;
+        match op.kind {
+            OpKind::CmpXchg { .. } => {
+                if let Outcome::CasFail(_) = out {
+                    st.last_failed_cas[me] = Some((op.addr, op.expected));
+                }
+            }
+            OpKind::MutexLock | OpKind::RwWrite => {
+                st.locks.entry(op.addr).or_default().writer = Some(me);
+            }
+            OpKind::MutexTryLock | OpKind::RwTryWrite => {
+                if *out != Outcome::TryFailed {
+                    st.locks.entry(op.addr).or_default().writer = Some(me);
+                }
+            }
+            OpKind::MutexUnlock | OpKind::RwUnlockWrite => {
+                st.locks.entry(op.addr).or_default().writer = None;
+            }
+            OpKind::RwRead => {
+                st.locks.entry(op.addr).or_default().readers += 1;
+            }
+            OpKind::RwTryRead => {
+                if *out != Outcome::TryFailed {
+                    st.locks.entry(op.addr).or_default().readers += 1;
+                }
+            }
+            OpKind::RwUnlockRead => {
+                let l = st.locks.entry(op.addr).or_default();
+                l.readers = l.readers.saturating_sub(1);
+            }
+            _ => {}
+        }
+    }
+}
+
+/// Handed to thread bodies to record API calls.
+pub struct Recorder {
+    exec: Arc<Exec>,
+    me: usize,
+}
+
+impl Recorder {
+    pub fn thread(&self) -> usize {
+        self.me
+    }
+
+    /// Perform one API call: CallBegin, the call, CallEnd; record it.
+    pub fn call(&self, name: &str, arg: Val, f: impl FnOnce() -> Val) -> Val {
+        {
+            let mut st = self.exec.st.lock().unwrap();
+            st.cur_call_name[self.me] = Some(name.to_string());
+        }
+        self.exec.sched_point(self.me, Pending::pseudo(PKind::CallBegin));
+        let inv = {
+            let mut st = self.exec.st.lock().unwrap();
+            st.in_call[self.me] = Some(name.to_string());
+            st.steps.len() - 1
+        };
+        let ret = f();
+        self.exec.sched_point(self.me, Pending::pseudo(PKind::CallEnd));
+        let mut st = self.exec.st.lock().unwrap();
+        let res = st.steps.len() - 1;
+        st.in_call[self.me] = None;
+        st.cur_call_name[self.me] = None;
+        st.calls.push(Call { thread: self.me, name: name.to_string(), arg, ret: ret.clone(), inv, res });
+        ret
+    }
+}
+
+/// Result of one complete (or aborted) execution.
+pub struct Execution {
+    pub nodes: Vec<Node>,
+    pub steps: Vec<StepRec>,
+    pub calls: Vec<Call>,
+    pub abort: Option<Abort>,
+    pub spin_obs: Vec<(usize, String, Vec<Option<String>>)>,
+}
+
+impl Execution {
+    pub fn choices(&self) -> Vec<usize> {
+        self.nodes.iter().map(|n| n.chosen).collect()
+    }
+    pub fn preemptions(&self) -> usize {
+        self.nodes.iter().filter(|n| matches!(n.prev, Some(p) if p != n.chosen && n.enabled.contains(&p))).count()
+    }
+    pub fn trace_json(&self, names: &HashMap<usize, String>) -> Value {
+        Value::Array(
+            self.steps
+                .iter()
+                .enumerate()
+                .map(|(i, s)| {
+                    json!({"step": i, "thread": s.thread, "call": s.call, "op": format!("{:?}", s.kind),
+                       "cell": names.get(&s.addr).cloned().unwrap_or_else(|| if s.addr == 0 { String::new() } else { format!("{:#x}", s.addr) }),
+                       "ord": format!("{:?}", s.ord), "operand": s.operand, "result": s.outcome.map(|o| format!("{:?}", o))})
+                })
+                .collect(),
+        )
+    }
+}
+
+// ------------------------------------------------------------------ drivers
+
+/// A multi-threaded driver explored by E1.
+pub trait Driver: Sync + Send {
+    type Shared: Send + Sync + 'static;
+    fn name(&self) -> String;
+    fn threads(&self) -> usize;
+    /// Build fresh shared objects (runs unhooked, before the threads start).
+    fn setup(&self) -> Self::Shared;
+    /// Body of thread `t`.
+    fn body(&self, t: usize, sh: &Self::Shared, rec: &Recorder);
+    /// Judge one complete execution (runs unhooked after all threads finished).
+    /// `Ok(outcome class)` or `Err((signature, what))`.
+    fn check(&self, sh: &Self::Shared, x: &Execution) -> Result<String, (String, String)>;
+    /// Names for cell addresses (for traces).
+    fn cell_names(&self, _sh: &Self::Shared) -> HashMap<usize, String> {
+        HashMap::new()
+    }
+}
+
+type Job = Box<dyn FnOnce() + Send>;
+
+/// A pool of OS threads reused across executions.
+pub struct Pool {
+    txs: Vec<mpsc::Sender<Job>>,
+}
+
+impl Pool {
+    pub fn new(n: usize) -> Pool {
+        let mut txs = vec![];
+        for i in 0..n {
+            let (tx, rx) = mpsc::channel::<Job>();
+            std::thread::Builder::new()
+                .name(format!("vsched-{}", i))
+                .spawn(move || {
+                    while let Ok(job) = rx.recv() {
+                        job();
+                    }
+                })
+                .unwrap();
+            txs.push(tx);
+        }
+        Pool { txs }
+    }
+}
+
+/// Run one execution of `driver` following `prefix` (then default choices).
+pub fn run_one<D: Driver + 'static>(
+    driver: &Arc<D>,
+    pool: &Pool,
+    prefix: &[usize],
+    sleep_after_prefix: &[usize],
+    use_sleep: bool,
+    max_steps: usize,
+) -> (Execution, Arc<D::Shared>) {
+    let n = driver.threads();
+    let exec = Exec::new(n, prefix.to_vec(), sleep_after_prefix.to_vec(), use_sleep, max_steps);
+    let shared = Arc::new(driver.setup());
+    for t in 0..n {
+        let exec2 = exec.clone();
+        let d = driver.clone();
+        let sh = shared.clone();
+        let job: Job = Box::new(move || {
+            let hook = Arc::new(ThreadHook { exec: exec2.clone(), me: t });
+            set_thread_hook(Some(hook));
+            let rec = Recorder { exec: exec2.clone(), me: t };
+            let r = std::panic::catch_unwind(std::panic::AssertUnwindSafe(|| {
+                exec2.sched_point(t, Pending::pseudo(PKind::Start));
+                d.body(t, &sh, &rec);
+            }));
+            set_thread_hook(None);
+            let msg = match r {
+                Ok(()) => None,
+                Err(p) => {
+                    if p.downcast_ref::<Aborted>().is_some() {
+                        None
+                    } else if let Some(s) = p.downcast_ref::<&str>() {
+                        Some(s.to_string())
+                    } else if let Some(s) = p.downcast_ref::<String>() {
+                        Some(s.clone())
+                    } else {
+                        Some("panic".to_string())
+                    }
+                }
+            };
+            drop(rec);
+            drop(sh);
+            exec2.finish_thread(t, msg);
+        });
+        pool.txs[t].send(job).unwrap();
+    }
+    let mut st = exec.st.lock().unwrap();
+    while st.finished < n {
+        st = exec.done.wait(st).unwrap();
+    }
+    let x = Execution {
+        nodes: std::mem::take(&mut st.nodes),
+        steps: std::mem::take(&mut st.steps),
+        calls: std::mem::take(&mut st.calls),
+        abort: st.abort.clone(),
+        spin_obs: std::mem::take(&mut st.spin_obs),
+    };
+    drop(st);
+    (x, shared)
+}
+
+// ----------------------------------------------------------------- explorer
+
+#[derive(Clone, Copy, Debug, PartialEq)]
+pub enum Mode {
+    /// unbounded, sleep sets
+    U,
+    /// preemption bound, no reduction
+    B(usize),
+}
+
+pub struct ExploreResult {
+    pub executions: u64,
+    pub sleep_blocked: u64,
+    pub steps: u64,
+    pub nodes: u64,
+    pub outcomes: std::collections::BTreeSet<String>,
+    pub violations: Vec<(String, String, Value)>,
+    pub cap_hit: bool,
+    pub machinery_error: Option<String>,
+    pub max_preemptions_seen: usize,
+    pub sample: Option<Value>,
+}
+
+struct Work {
+    prefix: Vec<usize>,
+    sleep: Vec<usize>,
+    preemptions: usize,
+}
+
+struct Shared2 {
+    queue: Mutex<(Vec<Work>, usize)>, // (stack, workers busy)
+    cv: Condvar,
+}
+
+/// Explore all schedules of `driver` in the given mode, in parallel.
+pub fn explore<D: Driver + 'static>(driver: D, mode: Mode, max_execs: u64, workers: usize) -> ExploreResult {
+    let driver = Arc::new(driver);
+    let q = Arc::new(Shared2 { queue: Mutex::new((vec![Work { prefix: vec![], sleep: vec![], preemptions: 0 }], 0)), cv: Condvar::new() });
+    let total = Arc::new(std::sync::atomic::AtomicU64::new(0));
+    let results: Arc<Mutex<ExploreResult>> = Arc::new(Mutex::new(ExploreResult {
+        executions: 0,
+        sleep_blocked: 0,
+        steps: 0,
+        nodes: 0,
+        outcomes: Default::default(),
+        violations: vec![],
+        cap_hit: false,
+        machinery_error: None,
+        max_preemptions_seen: 0,
+        sample: None,
+    }));
+    let use_sleep = mode == Mode::U;
+    let mut handles = vec![];
+    for _w in 0..workers {
+        let driver = driver.clone();
+        let q = q.clone();
+        let total = total.clone();
+        let results = results.clone();
+        handles.push(std::thread::spawn(move || {
+            let pool = Pool::new(driver.threads());
+            let mut local = ExploreResult {
+                executions: 0,
+                sleep_blocked: 0,
+                steps: 0,
+                nodes: 0,
+                outcomes: Default::default(),
+                violations: vec![],
+                cap_hit: false,
+                machinery_error: None,
+                max_preemptions_seen: 0,
+                sample: None,
+            };
+            loop {
+                let work = {
+                    let mut g = q.queue.lock().unwrap();
+                    loop {
+                        if let Some(w) = g.0.pop() {
+                            g.1 += 1;
+                            break Some(w);
+                        }
+                        if g.1 == 0 {
+                            q.cv.notify_all();
+                            break None;
+                        }
+                        g = q.cv.wait(g).unwrap();
+                    }
+                };
+                let work = match work {
+                    Some(w) => w,
+                    None => break,
+                };
+                let mut children: Vec<Work> = vec![];
+                if total.fetch_add(1, MemOrd::Relaxed) >= max_execs {
+                    local.cap_hit = true;
+                } else {
+                    let (x, sh) = run_one(&driver, &pool, &work.prefix, &work.sleep, use_sleep, 4000);
+                    local.steps += x.steps.len() as u64;
+                    local.nodes += (x.nodes.len().saturating_sub(work.prefix.len())) as u64;
+                    let names = driver.cell_names(&sh);
+                    let replay_doc = |x: &Execution, detail: &str| {
+                        json!({"engine": "vsched", "driver": driver.name(), "mode": format!("{:?}", mode), "schedule": x.choices(), "preemptions": x.preemptions(),
+                               "detail": detail, "calls": x.calls.iter().map(|c| c.show()).collect::<Vec<_>>(), "trace": x.trace_json(&names)})
+                    };
+                    match &x.abort {
+                        Some(Abort::SleepBlocked) => {
+                            local.sleep_blocked += 1;
+                        }
+                        Some(Abort::ReplayDivergence(m)) => {
+                            local.machinery_error = Some(format!("replay divergence in {}: {}", driver.name(), m));
+                        }
+                        Some(Abort::Deadlock(m)) => {
+                            local.executions += 1;
+                            local.violations.push((format!("deadlock:{}", driver.name()), format!("{}: deadlock: {}", driver.name(), m), replay_doc(&x, m)));
+                        }
+                        Some(Abort::Horizon) => {
+                            local.executions += 1;
+                            local.violations.push((format!("no-termination:{}", driver.name()), format!("{}: execution exceeded the step horizon (livelock)", driver.name()), replay_doc(&x, "horizon")));
+                        }
+                        Some(Abort::BodyPanic(m)) => {
+                            local.executions += 1;
+                            local.violations.push((format!("panic:{}", driver.name()), format!("{}: thread body panicked: {}", driver.name(), m), replay_doc(&x, m)));
+                        }
+                        None => {
+                            local.executions += 1;
+                            local.max_preemptions_seen = local.max_preemptions_seen.max(x.preemptions());
+                            match driver.check(&sh, &x) {
+                                Ok(class) => {
+                                    if local.sample.is_none() {
+                                        local.sample = Some(json!({"driver": driver.name(), "schedule": x.choices(), "calls": x.calls.iter().map(|c| c.show()).collect::<Vec<_>>(), "outcome": class}));
+                                    }
+                                    local.outcomes.insert(class);
+                                }
+                                Err((sig, what)) => {
+                                    local.violations.push((sig, format!("{}: {}", driver.name(), what.clone()), replay_doc(&x, &what)));
+                                }
+                            }
+                        }
+                    }
+                    // children: alternatives at every node beyond the prefix
+                    if x.abort.is_none() || matches!(x.abort, Some(Abort::SleepBlocked) | Some(Abort::Deadlock(_))) {
+                        let choices = x.choices();
+                        let mut pre = work.preemptions;
+                        for i in 0..x.nodes.len() {
+                            let node = &x.nodes[i];
+                            let is_preempt = |alt: usize| matches!(node.prev, Some(p) if p != alt && node.enabled.contains(&p));
+                            if i >= work.prefix.len() {
+                                match mode {
+                                    Mode::B(bound) => {
+                                        for &alt in &node.enabled {
+                                            if alt == node.chosen {
+                                                continue;
+                                            }
+                                            let cost = pre + if is_preempt(alt) { 1 } else { 0 };
+                                            if cost > bound {
+                                                continue;
+                                            }
+                                            let mut p = choices[..i].to_vec();
+                                            p.push(alt);
+                                            children.push(Work { prefix: p, sleep: vec![], preemptions: cost });
+                                        }
+                                    }
+                                    Mode::U => {
+                                        // order: the chosen thread first, then the other awake enabled threads
+                                        let mut done: Vec<usize> = node.sleep.clone();
+                                        done.push(node.chosen);
+                                        for &alt in &node.enabled {
+                                            if alt == node.chosen || node.sleep.contains(&alt) {
+                                                continue;
+                                            }
+                                            let ap = node.pending[alt].unwrap();
+                                            let sl: Vec<usize> = done
+                                                .iter()
+                                                .cloned()
+                                                .filter(|u| node.pending[*u].map(|pu| independent(&pu, &ap)).unwrap_or(false))
+                                                .collect();
+                                            let mut p = choices[..i].to_vec();
+                                            p.push(alt);
+                                            children.push(Work { prefix: p, sleep: sl, preemptions: 0 });
+                                            done.push(alt);
+                                        }
+                                    }
+                                }
+                            }
+                            if is_preempt(node.chosen) {
+                                pre += 1;
+                            }
+                        }
+                    }
+                }
+                let mut g = q.queue.lock().unwrap();
+                g.1 -= 1;
+                if !local.cap_hit && local.machinery_error.is_none() {
+                    g.0.extend(children);
+                } else {
+                    g.0.clear();
+                }
+                q.cv.notify_all();
+            }
+            let mut r = results.lock().unwrap();
+            r.executions += local.executions;
+            r.sleep_blocked += local.sleep_blocked;
+            r.steps += local.steps;
+            r.nodes += local.nodes;
+            r.outcomes.extend(local.outcomes);
+            r.cap_hit |= local.cap_hit;
+            r.max_preemptions_seen = r.max_preemptions_seen.max(local.max_preemptions_seen);
+            if r.machinery_error.is_none() {
+                r.machinery_error = local.machinery_error;
+            }
+            if r.sample.is_none() {
+                r.sample = local.sample;
+            }
+            for v in local.violations {
+                if !r.violations.iter().any(|(s, _, _)| *s == v.0) {
+                    r.violations.push(v);
+                } else if let Some(e) = r.violations.iter_mut().find(|(s, _, _)| *s == v.0) {
+                    // keep the replay with the fewest preemptions / shortest schedule
+                    let better = v.2["preemptions"].as_u64().unwrap_or(99) < e.2["preemptions"].as_u64().unwrap_or(99);
+                    if better {
+                        *e = v;
+                    }
+                }
+            }
+        }));
+    }
+    for h in handles {
+        h.join().unwrap();
+    }
+    Arc::try_unwrap(results).ok().unwrap().into_inner().unwrap()
+}
+
+/// Replay one schedule twice and return both executions' call histories.
+pub fn replay_twice<D: Driver + 'static>(driver: D, schedule: &[usize]) -> (Execution, Execution, Result<String, (String, String)>) {
+    let driver = Arc::new(driver);
+    let pool = Pool::new(driver.threads());
+    let (x1, sh1) = run_one(&driver, &pool, schedule, &[], false, 4000);
+    let r1 = if x1.abort.is_none() { driver.check(&sh1, &x1) } else { Err(("abort".into(), format!("{:?}", x1.abort))) };
+    let (x2, _sh2) = run_one(&driver, &pool, schedule, &[], false, 4000);
+    (x1, x2, r1)
+}
+
+// ---------------------------------------------------------- linearizability
+
+/// Sequential specification for the Wing–Gong checker.
+pub trait SeqSpec {
+    type State: Clone + std::hash::Hash + Eq;
+    fn init(&self) -> Self::State;
+    /// Apply `call` to `st`; `None` if the recorded return value is impossible in `st`.
+    fn apply(&self, st: &Self::State, call: &Call) -> Option<Self::State>;
+}
+
+/// Is `calls` linearizable w.r.t. `spec`? Returns a witness order if so.
+pub fn linearizable<S: SeqSpec>(spec: &S, calls: &[Call]) -> Option<Vec<usize>> {
+    let n = calls.len();
+    assert!(n <= 30);
+    let mut seen: std::collections::HashSet<(u32, S::State)> = Default::default();
+    let mut order = vec![];
+    fn rec<S: SeqSpec>(
+        spec: &S,
+        calls: &[Call],
+        done: u32,
+        st: S::State,
+        seen: &mut std::collections::HashSet<(u32, S::State)>,
+        order: &mut Vec<usize>,
+    ) -> bool {
+        let n = calls.len();
+        if done == (1u32 << n) - 1 {
+            return true;
+        }
+        if !seen.insert((done, st.clone())) {
+            return false;
+        }
+        for i in 0..n {
+            if done & (1 << i) != 0 {
+                continue;
+            }
+            // minimal: no other pending call returned before i was invoked
+            let minimal = (0..n).all(|j| j == i || done & (1 << j) != 0 || !calls[j].precedes(&calls[i]));
+            if !minimal {
+                continue;
+            }
+            if let Some(ns) = spec.apply(&st, &calls[i]) {
+                order.push(i);
+                if rec(spec, calls, done | (1 << i), ns, seen, order) {
+                    return true;
+                }
+                order.pop();
+            }
+        }
+        false
+    }
+    if rec(spec, calls, 0, spec.init(), &mut seen, &mut order) {
+        Some(order)
+    } else {
+        None
+    }
+}
+
+// ------------------------------------------------------------ many drivers
+
+/// Explore many (small) drivers, distributing whole drivers over `par` runner
+/// threads (each exploration itself uses one worker). Falls back from Mode U to
+/// Mode B(`fallback_bound`) for a driver that hits `cap` executions.
+pub fn explore_many<D: Driver + 'static>(
+    drivers: Vec<D>,
+    mode: Mode,
+    cap: u64,
+    fallback_bound: usize,
+    par: usize,
+    rebuild: impl Fn(&D) -> D + Sync + Send,
+) -> Vec<(String, Mode, ExploreResult)> {
+    let n = drivers.len();
+    let queue = Arc::new(Mutex::new(drivers.into_iter().enumerate().collect::<Vec<_>>()));
+    let out: Arc<Mutex<Vec<(usize, String, Mode, ExploreResult)>>> = Arc::new(Mutex::new(Vec::with_capacity(n)));
+    std::thread::scope(|s| {
+        for _ in 0..par {
+            let queue = queue.clone();
+            let out = out.clone();
+            let rebuild = &rebuild;
+            s.spawn(move || loop {
+                let item = queue.lock().unwrap().pop();
+                let (i, d) = match item {
+                    Some(x) => x,
+                    None => break,
+                };
+                let name = d.name();
+                let copy = rebuild(&d);
+                let mut used = mode;
+                let mut r = explore(d, mode, cap, 1);
+                if r.cap_hit && mode == Mode::U && r.violations.is_empty() {
+                    used = Mode::B(fallback_bound);
+                    r = explore(copy, used, cap * 4, 1);
+                }
+                out.lock().unwrap().push((i, name, used, r));
+            });
+        }
+    });
+    let mut v = Arc::try_unwrap(out).ok().unwrap().into_inner().unwrap();
+    v.sort_by_key(|x| x.0);
+    v.into_iter().map(|(_, n, m, r)| (n, m, r)).collect()
+}
+
+/// Fold exploration results into a report.
+pub fn fold_results(rep: &mut crate::Report, results: Vec<(String, Mode, ExploreResult)>) -> Value {
+    let mut per_mode: std::collections::BTreeMap<String, (u64, u64)> = Default::default();
+    let mut fallbacks = vec![];
+    for (name, mode, r) in results {
+        rep.evaluations += r.executions;
+        rep.traces += r.executions;
+        rep.transitions += r.steps;
+        rep.states += r.nodes;
+        let e = per_mode.entry(format!("{:?}", mode)).or_insert((0, 0));
+        e.0 += 1;
+        e.1 += r.executions;
+        if let Mode::B(_) = mode {
+            fallbacks.push(name.clone());
+        }
+        for o in r.outcomes {
+            rep.outcome(o);
+        }
+        if r.cap_hit {
+            rep.cap_hit = Some(format!("execution cap hit in driver {}", name));
+        }
+        if let Some(m) = r.machinery_error {
+            eprintln!("MACHINERY ERROR: {}", m);
+            std::process::exit(2);
+        }
+        if let Some(s) = r.sample {
+            rep.sample(s);
+        }
+        let sb = rep.extra.entry("sleep_blocked_executions".into()).or_insert(json!(0));
+        *sb = json!(sb.as_u64().unwrap_or(0) + r.sleep_blocked);
+        let mp = rep.extra.entry("max_preemptions_in_an_execution".into()).or_insert(json!(0));
+        *mp = json!(mp.as_u64().unwrap_or(0).max(r.max_preemptions_seen as u64));
+        for (sig, what, replay) in r.violations {
+            rep.violation(sig, what, replay);
+        }
+    }
+    json!({"drivers_and_executions_per_mode": per_mode, "drivers_run_in_mode_B": fallbacks.len()})
+}
